@@ -79,12 +79,26 @@ def check_score(P, R, key, client_terms):
     # pooling: sum over all elements with __add__
     pools = []
     scopes = [f]
-    for n in walk_no_nested(f.node):
-        # the pooling may live in a helper that receives the probe
-        if isinstance(n, ast.Call) and any(isinstance(a, ast.Name) and a.id == data_p for a in list(n.args) + [k.value for k in n.keywords]):
-            for t_ in P.resolve_callee(n.func, f):
-                if t_[0] == "repo" and t_[1] not in scopes and not t_[1].qualname.endswith(("estimate_x", "estimate_ux")):
-                    scopes.append(t_[1])
+    work = [(f, data_p, 0)]
+    seen_ = {(f.key, data_p)}
+    while work:
+        g_, prm_, d_ = work.pop()
+        for n in walk_no_nested(g_.node):
+            # the pooling may live in a helper that receives the probe (or, inside a helper, one template of it)
+            if isinstance(n, ast.Call) and d_ < 3:
+                b_ = None
+                for t_ in P.resolve_callee(n.func, g_):
+                    if t_[0] != "repo" or t_[1].qualname.endswith(("estimate_x", "estimate_ux")):
+                        continue
+                    b_ = P.bind_args(t_[1], n.args, n.keywords)
+                    for p2_, a2_ in b_.items():
+                        names_ = {x.id for x in ast.walk(a2_) if isinstance(x, ast.Name)}
+                        loopvars_ = {x.target.id for x in ast.walk(g_.node) if isinstance(x, (ast.For, ast.comprehension)) and isinstance(x.target, ast.Name) and isinstance(x.iter, ast.Name) and x.iter.id == prm_}
+                        if (prm_ in names_ or names_ & loopvars_) and (t_[1].key, p2_) not in seen_:
+                            seen_.add((t_[1].key, p2_))
+                            if t_[1] not in scopes:
+                                scopes.append(t_[1])
+                            work.append((t_[1], p2_, d_ + 1))
     for sc_ in scopes:
         for n in walk_no_nested(sc_.node):
             if isinstance(n, ast.Call) and isinstance(n.func, ast.Name) and n.func.id == "sum":
@@ -95,10 +109,11 @@ def check_score(P, R, key, client_terms):
         R.violation("COVER.pool", key, "pooling of a multi-statistics probe", "several statistics of one probe are no longer pooled")
     # the pooling applies to every probe of more than one statistics object: a length test that guards it is `> 1` (`>= 2`, `!= 1`)
     from ..cfg import guards_of as _gof11
-    for n in pools:
+    helper_calls = [c_ for sc_ in scopes for c_ in walk_no_nested(sc_.node) if isinstance(c_, ast.Call) and c_.args and any(t_[0] == "repo" and t_[1] in scopes[1:] for t_ in P.resolve_callee(c_.func, sc_))]
+    for n in pools + helper_calls:
         for t_, pol_ in _gof11(n._stmt if hasattr(n, "_stmt") else get_defuse(next(sc_ for sc_ in scopes if any(n is x for x in ast.walk(sc_.node))), P).stmt_of(n)):
             seq_ = n.args[0] if n.args else None
-            if src(n.func).endswith("reduce") and len(n.args) >= 2:
+            if src(n.func).endswith("reduce") and len(n.args) >= 2 and n in pools:
                 seq_ = n.args[1]
             base_ = seq_
             while isinstance(base_, ast.Subscript):
@@ -127,7 +142,11 @@ def check_score(P, R, key, client_terms):
             if "iadd" in opn:
                 R.violation("OWN.pool", key, src(n)[:60], "in-place pooling mutates the caller's first statistics object", n.lineno)
             else:
-                R.check("add" in opn and len(n.args) >= 2 and isinstance(n.args[1], ast.Name), "COVER.pool", key, src(n)[:60], "reduce(add) over the whole list", "reduction does not cover the whole list", n.lineno)
+                whole_ = len(n.args) >= 2 and isinstance(n.args[1], ast.Name)
+                if len(n.args) == 3 and isinstance(n.args[1], ast.Subscript) and isinstance(n.args[1].slice, ast.Slice):
+                    sl_ = n.args[1].slice
+                    whole_ = const_value(sl_.lower) == 1 and sl_.upper is None and sl_.step is None and src(n.args[2]) == f"{src(n.args[1].value)}[0]"
+                R.check("add" in opn and whole_, "COVER.pool", key, src(n)[:60], "reduce(add) over the whole list", "reduction does not cover the whole list", n.lineno)
     # result is element [0][0] of the (1 model x 1 probe) score matrix  -- a scalar either way; not constrained
 
 
